@@ -73,3 +73,72 @@ Proof.
   rewrite wrath_encrypt_server_header_translated by (destruct Hw as [_ Hb]; exact Hb).
   rewrite E. cbn [enc_view]. auto.
 Qed.
+
+(* ================================================================================================
+   The decode side: ServerHeader::from_small_array / from_large_array (src/wrath_header/mod.rs, with
+   clear_large_header inlined) and ClientDecrypterHalf::attempt_decrypt_server_header /
+   decrypt_large_server_header (src/wrath_header/decrypt.rs, with large_header inlined and
+   InnerCrypto::apply as the external call), translated on this run, are the model's functions. *)
+From Coq Require Import ZifyN ZifyBool ZifyNat.
+
+Lemma from_small_array_translated : forall b0 b1 b2 b3,
+  tr_wrath_from_small_array [b0; b1; b2; b3] = Some (from_small_array b0 b1 b2 b3).
+Proof.
+  intros. unfold tr_wrath_from_small_array, from_small_array.
+  change (N.to_nat 0) with 0%nat. change (N.to_nat 1) with 1%nat. change (N.to_nat 2) with 2%nat. change (N.to_nat 3) with 3%nat.
+  cbn [nth_error rev app le_to_N]. f_equal. f_equal; lia.
+Qed.
+
+Lemma from_large_array_translated : forall b0 b1 b2 b3 b4,
+  tr_wrath_from_large_array [b0; b1; b2; b3; b4] = Some (from_large_array b0 b1 b2 b3 b4).
+Proof.
+  intros. unfold tr_wrath_from_large_array, from_large_array, clear_large_header.
+  change (N.to_nat 0) with 0%nat. change (N.to_nat 1) with 1%nat. change (N.to_nat 2) with 2%nat.
+  change (N.to_nat 3) with 3%nat. change (N.to_nat 4) with 4%nat.
+  cbn [nth_error rev app le_to_N]. f_equal. f_equal; lia.
+Qed.
+
+Definition attempt_view (r : nres (client_dec * attempt)) : option ((rc4 * list N) * option (N * N)) :=
+  match r with
+  | Ok (h', Header s o) => Some ((cd_rc4 h', cd_hdr h'), Some (s, o))
+  | Ok (h', AdditionalByteRequired) => Some ((cd_rc4 h', cd_hdr h'), None)
+  | _ => None
+  end.
+
+Lemma wrath_attempt_translated : forall h buf,
+  length buf = 4%nat -> length (cd_hdr h) = 4%nat ->
+  tr_wrath_attempt_decrypt_server_header apply_view (cd_rc4 h) (cd_hdr h) buf
+  = attempt_view (attempt_decrypt_server_header h buf).
+Proof.
+  intros [r hdr] buf Hb Hh. cbn [cd_rc4 cd_hdr] in *.
+  destruct hdr as [|p0 [|p1 [|p2 [|p3 [|]]]]]; try discriminate Hh. clear Hh.
+  unfold tr_wrath_attempt_decrypt_server_header, attempt_decrypt_server_header, cd_decrypt, apply_view, large_header.
+  cbn [cd_rc4 cd_hdr].
+  destruct (inner_apply r buf) as [[r' out]|e|] eqn:E; [|destruct e|reflexivity].
+  pose proof (apply_keystream_length _ _ _ _ E) as L. rewrite Hb in L.
+  destruct out as [|o0 [|o1 [|o2 [|o3 [|]]]]]; try discriminate L.
+  change (N.to_nat 0) with 0%nat. change (N.to_nat 1) with 1%nat. change (N.to_nat 2) with 2%nat. change (N.to_nat 3) with 3%nat.
+  cbn [nth_error].
+  destruct (negb (N.land o0 128 =? 0)).
+  - reflexivity.
+  - rewrite from_small_array_translated. cbn [cd_rc4 cd_hdr]. destruct (from_small_array o0 o1 o2 o3). reflexivity.
+Qed.
+
+Definition large_view (r : nres (client_dec * (N * N))) : option ((rc4 * list N) * (N * N)) :=
+  match r with Ok (h', so) => Some ((cd_rc4 h', cd_hdr h'), so) | _ => None end.
+
+Lemma wrath_decrypt_large_translated : forall h byte,
+  length (cd_hdr h) = 4%nat ->
+  tr_wrath_decrypt_large_server_header apply_view (cd_rc4 h) (cd_hdr h) byte
+  = large_view (decrypt_large_server_header h byte).
+Proof.
+  intros [r hdr] byte Hh. cbn [cd_rc4 cd_hdr] in *.
+  destruct hdr as [|p0 [|p1 [|p2 [|p3 [|]]]]]; try discriminate Hh. clear Hh.
+  unfold tr_wrath_decrypt_large_server_header, decrypt_large_server_header, cd_decrypt, apply_view.
+  cbn [cd_rc4 cd_hdr].
+  destruct (inner_apply r [byte]) as [[r' out]|e|] eqn:E; [|destruct e|reflexivity].
+  pose proof (apply_keystream_length _ _ _ _ E) as L. cbn [length] in L.
+  destruct out as [|b4 [|]]; try discriminate L.
+  change (N.to_nat 0) with 0%nat. change (N.to_nat 1) with 1%nat. change (N.to_nat 2) with 2%nat. change (N.to_nat 3) with 3%nat.
+  cbn [nth_error cd_hdr]. rewrite from_large_array_translated. reflexivity.
+Qed.
